@@ -452,7 +452,7 @@ Inductive ekind :=
 | KForSkip       (* for_loop on a loop that is not loop_compat: silently returns the empty relation, body not visited *)
 | KCond          (* sub-expression in a controlling position, never inspected: if/while/do-while/for cond *)
 | KHeader        (* for-loop init / next, never inspected *)
-| KDropEval      (* operand discarded by a rewriting although C evaluates it: !e, and the whole of a KNoop unary statement, return e *)
+| KDropEval      (* expression discarded uninspected although C evaluates it: operand of !e, a whole no-op unary statement, return e, arguments of assert/assume *)
 | KDropSizeof    (* operand of sizeof: discarded, C does not evaluate it *)
 | KRaise.        (* Python exception (assert in binary_op, init_vars) *)
 Inductive event := Ev (k : ekind) (p : path).
@@ -501,7 +501,8 @@ Definition cr_step (c : string) (a : list (string * string)) (ks : list (string 
       | Some (_, fn) =>
         if String.eqb fn "unary_op" then
           (if attr_in self "op" INC_DEC && ois_cls "ID" (orm_cast (kid1 self "expr")) then [Ev KFlow []]
-           else [Ev KNoop []] ++ dropped KDropEval "expr")
+           else if attr_is self "op" OP_SIZEOF then [Ev KNoop []] ++ dropped KDropSizeof "expr"
+           else [Ev KNoop []; Ev KDropEval []])          (* the whole expression statement is discarded *)
         else if String.eqb fn "if_stmt" then
           let branch s :=
               match ak1 aks s with
@@ -525,7 +526,7 @@ Definition cr_step (c : string) (a : list (string * string)) (ks : list (string 
       | None =>
         if String.eqb c "FuncCall" && ois_cls "ID" (kid1 self "name") &&
            match kid1 self "name" with Some f => attr_in f "name" CR_NOOP_CALLS | None => false end
-        then [Ev KNoop []]
+        then [Ev KNoop []] ++ dropped KDropEval "args"
         else [Ev KUnsupported []]
       end in
   if in_s c CR_SKIP then [Ev KSkip []] ++ (if String.eqb c "Return" then dropped KDropEval "expr" else [])
@@ -556,4 +557,68 @@ Definition func_events (f : node) : list event :=
   match kid1 f "body" with
   | Some b => concat (mapi (fun i s => map (epush [("body", 0); ("block_items", i)]) (cr_events s)) (kidl b "block_items"))
   | None => []
+  end.
+
+(* ------------------------------------------------------------------------- *)
+(* Specification side of C05 (independent of the walkers above)                *)
+(* ------------------------------------------------------------------------- *)
+(* the node itself changes a variable: an assignment, ++/--, a call other than assert/assume *)
+Definition effect_here (n : node) : bool :=
+  is_cls "Assignment" n || (is_cls "UnaryOp" n && attr_in n "op" INC_DEC) ||
+  (is_cls "FuncCall" n && negb (fcall_special n)).
+
+(* evaluating the expression / executing the statement may change a variable
+   (the operand of sizeof is not evaluated) *)
+Fixpoint changes_var (n : node) : bool :=
+  match n with
+  | Node c a ks =>
+    effect_here (Node c a ks) ||
+    (negb (String.eqb c "UnaryOp" && attr_is (Node c a ks) "op" OP_SIZEOF) &&
+     existsb (fun sk => existsb changes_var (snd sk)) ks)
+  end.
+
+Definition ochanges (f : node) (p : path) : bool :=
+  match node_at p f with Some x => changes_var x | None => false end.
+
+(* what the analysis of function f loses: statements sent to the warn-and-skip path (or silently
+   skipped for-loops), conditions with an effect, discarded expressions with an effect *)
+Definition c05_bad (f : node) : list (string * path) :=
+  flat_map (fun e => let 'Ev k p := e in
+                     match k with
+                     | KUnsupported | KForSkip => [("unsupported", p)]
+                     | KRaise => [("raise", p)]
+                     | KCond => if ochanges f p then [("cond", p)] else []
+                     | KDropEval => if ochanges f p then [("dropped", p)] else []
+                     | _ => []
+                     end) (func_events f).
+
+(* ------------------------------------------------------------------------- *)
+(* LoopAnalysis.run: which loops get inspected, and in which state             *)
+(* ------------------------------------------------------------------------- *)
+(* loops = [loop for loop in FindLoops(func).loops if LoopAnalysis.syntax_check(loop, strict)].
+   Each loop object is cleaned in place when its turn comes; an enclosing loop cleaned earlier has
+   already applied (some of) the same closures to it -- the closures are idempotent and commute, so
+   the state in which a loop is inspected is its own cleaned subtree.  (path in func, node inspected) *)
+Fixpoint loop_mode_from (f : node) (strict : bool) (ps : list path) : res (list (path * node)) :=
+  match ps with
+  | [] => Ok []
+  | p :: ps' =>
+    match node_at p f with
+    | None => Err "path"
+    | Some l =>
+      match syntax_check l strict with
+      | Err m => Err m
+      | Ok (v, l') =>
+        match loop_mode_from f strict ps' with
+        | Err m => Err m
+        | Ok r => Ok (if v && is_loop l' then (p, l') :: r else r)
+        end
+      end
+    end
+  end.
+
+Definition loop_mode_loops (f : node) (strict : bool) : res (list (path * node)) :=
+  match find_loops f with
+  | None => Err "AttributeError"
+  | Some ps => loop_mode_from f strict ps
   end.
